@@ -68,6 +68,24 @@ def head_table():
         "eOP_FUNCTION_SUM": [fn("sum", a) for a in (A, Eset, Att, path([step("descendant", T_TEXT)]))],
         "eOP_FUNCTION_CONCAT": [fn("concat", lit("a"), num(1)), fn("concat", A, fn("true"), lit("")), fn("concat", lit(""), lit(""))],
     }
+    # every operator head also with node-set operands that are NOT location paths: variables (non-empty / empty), functions
+    # returning node-sets, filter expressions - the typed overloads receive these through a different route (an XObject)
+    NSOPS = [var("e"), var("z"), fn("id", lit("i1 i2")), fn("current"), filt(A, num(1)), path([step("child", T_ANY)], start=var("e"))]
+    others = [A, Eset, num(1), lit("1"), fn("true")]
+    for op, sym in (("eOP_OR", "or"), ("eOP_AND", "and"), ("eOP_EQUALS", "="), ("eOP_NOTEQUALS", "!="), ("eOP_LT", "<"), ("eOP_LTE", "<="), ("eOP_GT", ">"),
+                    ("eOP_GTE", ">="), ("eOP_PLUS", "+"), ("eOP_MINUS", "-"), ("eOP_MULT", "*"), ("eOP_DIV", "div"), ("eOP_MOD", "mod")):
+        for x in NSOPS:
+            for o in others[:3] if op in ("eOP_PLUS", "eOP_MINUS", "eOP_MULT", "eOP_DIV", "eOP_MOD") else others:
+                T[op].append(bin_(sym, x, o)); T[op].append(bin_(sym, o, x))
+    for x in NSOPS:
+        for y in NSOPS + [A, Eset]:
+            T["eOP_UNION"].append(bin_("|", x, y)); T["eOP_UNION"].append(bin_("|", y, x))
+        T["eOP_NEG"].append(neg(x))
+        for h, f in (("eOP_FUNCTION_COUNT", "count"), ("eOP_FUNCTION_NOT", "not"), ("eOP_FUNCTION_BOOLEAN", "boolean"), ("eOP_FUNCTION_NAME_1", "name"),
+                     ("eOP_FUNCTION_LOCALNAME_1", "local-name"), ("eOP_FUNCTION_NUMBER_1", "number"), ("eOP_FUNCTION_STRING_1", "string"),
+                     ("eOP_FUNCTION_STRINGLENGTH_1", "string-length"), ("eOP_FUNCTION_SUM", "sum"), ("eOP_FUNCTION_FLOOR", "floor")):
+            T[h].append(fn(f, x))
+        T["eOP_GROUP"].append(filt(x, num(1)))
     return T
 
 NOT_HEADS = {"eOP_XPATH", "eOP_BOOL", "eOP_ARGUMENT", "eOP_PREDICATE", "eOP_PREDICATE_WITH_POSITION", "eOP_MATCHPATTERN",
